@@ -4,7 +4,7 @@
 # baseline suite, confirms the demonstration fails with it and passes without it, runs the given
 # checks (quick; thorough for the target if quick stays silent), and restores /repo.
 set -u
-PATCH=$(readlink -f "$1"); DEMO="$2"; shift 2
+PATCH=$(readlink -f "$1"); DEMO="$2"; [ "$DEMO" != "-" ] && DEMO=$(readlink -f "$DEMO"); shift 2
 PROPS="$@"
 cd /repo || exit 2
 if [ -n "$(git status --porcelain --untracked-files=no)" ]; then echo "REPO NOT CLEAN"; exit 2; fi
